@@ -278,6 +278,61 @@ func CheckStructure(tree *rtree.Rtree) (Stats, string) {
 	return st, msg
 }
 
+// Stale is an entry of a non-leaf node whose stored box is not the envelope of the subtree below it.
+type Stale struct {
+	Stored, True geom.Bounds
+}
+
+// StaleBoxes lists the non-leaf entries whose box differs from the envelope of their subtree (from the verif snapshot).
+func StaleBoxes(tree *rtree.Rtree) []Stale {
+	root, _ := tree.VerifSnapshot()
+	var out []Stale
+	var walk func(n *rtree.VerifNode) *geom.Bounds
+	walk = func(n *rtree.VerifNode) *geom.Bounds {
+		if n == nil {
+			return nil
+		}
+		var env *geom.Bounds
+		ext := func(b geom.Bounds) {
+			if env == nil {
+				c := b
+				env = &c
+				return
+			}
+			env.Min.X, env.Min.Y = math.Min(env.Min.X, b.Min.X), math.Min(env.Min.Y, b.Min.Y)
+			env.Max.X, env.Max.Y = math.Max(env.Max.X, b.Max.X), math.Max(env.Max.Y, b.Max.Y)
+		}
+		if n.Leaf {
+			for _, b := range n.Boxes {
+				ext(b)
+			}
+			return env
+		}
+		for i, c := range n.Children {
+			sub := walk(c)
+			if sub != nil && i < len(n.Boxes) && n.Boxes[i] != *sub {
+				out = append(out, Stale{Stored: n.Boxes[i], True: *sub})
+			}
+			if i < len(n.Boxes) {
+				ext(n.Boxes[i])
+			}
+		}
+		return env
+	}
+	walk(root)
+	return out
+}
+
+// DeleteLive removes live object i from tree and model (used by checks that add deletes of their own to a history).
+func (m *Model) DeleteLive(i int) bool {
+	o := m.Live[i]
+	if !m.Tree.Delete(o) {
+		return false
+	}
+	m.Live = append(m.Live[:i], m.Live[i+1:]...)
+	return true
+}
+
 // Dump is a canonical text form of the structure (to detect any change by a failed Delete).
 func Dump(tree *rtree.Rtree) string {
 	root, h := tree.VerifSnapshot()
